@@ -119,6 +119,9 @@ def observe(tier="quick", only=None):
             for op in VAR_OPS:
                 row = {"template": v["name"], "name": n, "op": op, "lint": [None] * 45, "interp": [None] * 45, "ctx": [None] * 45}
                 o.vars.append(row)
+                if op == "get":
+                    reqs.append("vtype " + n)
+                    index.append((row, 0, "vtype"))
                 for p, m in enumerate(MASKS):
                     reqs.append("cell V,%s,%s,%d" % (n, op, m))
                     index.append((row, p, "cell"))
@@ -150,6 +153,13 @@ def observe(tier="quick", only=None):
     reps = parallel_batch(reqs)
     for req, (row, p, kind), rep in zip(reqs, index, reps):
         f = (rep or "").split()
+        if kind == "vtype":
+            if len(f) == 9:
+                row["itype"] = f
+            else:
+                row["itype"] = ["-"] * 9
+                o.bad.append((req, rep))
+            continue
         if kind == "ctx":
             if len(f) == 2 and f[0] in ("A", "R"):
                 row["ctx"][p] = f[0] == "A"
@@ -215,6 +225,10 @@ def write_obs(o):
     b.append(";\n".join("(%s, %s, %s, %d, %d, %d)" % (cs(r["template"]), cs(r["name"]), cs(r["op"]), lint_bits(r), interp_bits(r),
                                                      bits([x is True for x in r["ctx"]])) for r in o.vars))
     b.append("].\n")
+    b.append("(* (instantiated name, type of the simulator's value in each of the nine scopes, \"-\" = no value) *)\n")
+    b.append("Definition obs_var_types : list (string * list string) := [\n")
+    b.append(";\n".join("(%s, [%s])" % (cs(r["name"]), ";".join(cs(x) for x in r["itype"])) for r in o.vars if r["op"] == "get"))
+    b.append("].\n")
     _write(os.path.join(gen, "ObsVars.v"), "".join(b))
     b = [HEADER]
     b.append("(* (function, signature index, linter accepts, simulator executes) *)\n")
@@ -260,3 +274,91 @@ if __name__ == "__main__":
     o = observe(sys.argv[1] if len(sys.argv) > 1 else "quick")
     print("cells", o.cells, "programs run", o.programs_run, "bad", len(o.bad), "time %.1f" % (time.time() - t))
     pickle.dump(o, open("/root/work/tables/tmp/obs.pkl", "wb"))
+    write_obs(o)
+    write_known_gaps()
+
+
+# --------------------------------------------------------------------------- gap rows (computed by Coq)
+
+def mask_name(p):
+    m = MASKS[p]
+    return "+".join(SCOPES[i] for i in range(9) if m >> i & 1)
+
+
+def positions(bits_, n):
+    return [p for p in range(n) if bits_ >> p & 1]
+
+
+def gap_rows():
+    """the disagreeing cells as Coq computes them from the regenerated tables (Model/TablesGaps.v);
+    returns (rows, domain sizes, coqc log)"""
+    src = os.path.join(V.BUILD, "C05PrintGaps.v")
+    with open(src, "w") as f:
+        f.write("From Coq Require Import NArith List String.\nFrom Falco Require Import Model.TablesGaps.\nImport ListNotations.\n"
+                "Open Scope N_scope.\nOpen Scope string_scope.\nEval vm_compute in all_gap_rows.\nEval vm_compute in domain_sizes.\n")
+    rc, out = V.sh(["timeout", "300", "coqc", "-R", V.COQ, "Falco", "-o", os.path.join(V.BUILD, "C05PrintGaps.vo"), src], cwd=V.BUILD, timeout=330)
+    if rc != 0:
+        return None, None, out
+    t = re.sub(r"\s+", " ", out)
+    first, _, second = t.partition(": list gap_row")
+    rows = [{"kind": a, "name": b, "at": c, "bits": int(d)} for a, b, c, d in re.findall(r'\("([^"]*)", "([^"]*)", "([^"]*)", (\d+)\)', first)]
+    sizes = {a: int(b) for a, b in re.findall(r'\( ?"([^"]*)", (\d+)\)', second)}
+    return rows, sizes, out
+
+
+def first_cell(row):
+    """cell spec of the first failing position of a gap row (None for table-level rows)"""
+    k, n, a, b = row["kind"], row["name"], row["at"], row["bits"]
+    if k.startswith("var-") and k not in ("var-table", "var-type"):
+        return "V,%s,%s,%d" % (n, a, MASKS[positions(b, 45)[0]])
+    if k == "var-type":
+        return "V,%s,get,%d" % (n, MASKS[positions(b, 9)[0]])
+    if k in ("func-interp", "func-model"):
+        return "F,%s,%s,%d" % (n, a, MASKS[positions(b, 45)[0]])
+    if k == "func-ref":
+        return "F,%s,0,%d" % (n, MASKS[positions(b, 45)[0]])
+    if k.startswith("stmt-"):
+        return "S,%s,%d" % (n, MASKS[positions(b, 45)[0]])
+    if k.startswith("op-"):
+        r, f = op_positions()[positions(b, 30)[0]]
+        return "O,%s,%s,%s,%s" % (n, a, r, f)
+    return None
+
+
+WHAT = {
+    "var-interp": "accepted by the linter, fails in the simulator",
+    "func-interp": "call accepted by the linter, fails in the simulator",
+    "stmt-interp": "statement accepted by the linter, fails in the simulator",
+    "op-interp": "accepted by the linter, fails in the simulator",
+    "var-ref": "linter verdict differs from the reference table (predefined.yml)",
+    "func-ref": "linter verdict differs from the reference table (builtin.yml)",
+    "stmt-ref": "linter verdict differs from the documented scopes of the statement",
+    "op-ref": "linter verdict differs from the assignment type table",
+    "var-type": "type of the variable differs between linter and simulator",
+    "var-model": "lookup model (Model/LintTables.v) differs from the real linter",
+    "func-model": "GetFunction model differs from the real linter",
+    "stmt-model": "statement guard model differs from the real linter",
+    "op-model": "operator model (Model/LintOps.v) differs from the real linter",
+    "var-table": "linter/context/predefined.go differs from __generator__/predefined.yml",
+    "func-table-ref": "linter/context/builtin.go differs from __generator__/builtin.yml",
+    "dyn-ref": "linter/context/dynamic.go differs from __generator__/predefined.yml",
+    "func-table": "interpreter/function/builtin_functions.go differs from linter/context/builtin.go (scope, CanStatementCall or ident-argument indices)",
+}
+
+
+def describe(row):
+    k, n, a, b = row["kind"], row["name"], row["at"], row["bits"]
+    if k.startswith("op-"):
+        where = ", ".join("%s %s" % op_positions()[p] for p in positions(b, 30))
+        return "%s %s %s [%s]: %s" % (a, n, "<value>", where, WHAT.get(k, k))
+    if k == "var-type":
+        return "%s: linter %s in [%s]: %s" % (n, a, ",".join(SCOPES[p] for p in positions(b, 9)), WHAT[k])
+    if k in ("var-table", "func-table-ref", "dyn-ref", "func-table"):
+        return "%s %s: %s" % (n, a, WHAT[k])
+    ps = positions(b, 45)
+    single = [mask_name(p) for p in ps if p < 9]
+    multi = [mask_name(p) for p in ps if p >= 9]
+    where = ",".join(single) if single else ""
+    if multi:
+        where += (" and " if where else "") + "%d two-scope annotations (%s%s)" % (len(multi), ",".join(multi[:3]), ",..." if len(multi) > 3 else "")
+    return "%s %s in [%s]: %s" % (n, a, where, WHAT.get(k, k))
